@@ -82,8 +82,9 @@ def run_seqs(tier, seed):
     judged = []
     for c in gen["cases"]:
         t = text_of(c)
-        judged.append({"pid": c["pid"], "v": c["v"], "fam": c["fam"], "lines": c["lines"], "text": t, "obs": observe_seq(t)})
-    outs = run_chunked("SeqCheck", CFG, judged, "seqs", fields=("pid", "v", "lines", "obs"))
+        judged.append({"pid": c["pid"], "v": c["v"], "fam": c["fam"], "lines": c["lines"], "nlive": c["nlive"], "text": t,
+                       "obs": observe_seq(t)})
+    outs = run_chunked("SeqCheck", CFG, judged, "seqs", fields=("pid", "v", "lines", "nlive", "obs"))
     witnesses, n = [], 0
     for o in outs:
         witnesses += marker_lines(o["stdout"], "W")
@@ -93,7 +94,8 @@ def run_seqs(tier, seed):
     tot = {"states": sum(o["distinct"] for o in outs) + gen["states"], "transitions": sum(o["states"] for o in outs),
            "programs": len(judged),
            "known_args": sum(1 for j in judged for a in j["obs"]["args"] for x in a if x != [0, 0]),
-           "flagged": len([j for j in judged if j["obs"]["flag_ins"] or j["obs"]["flag_field"]])}
+           "flagged": len([j for j in judged if j["obs"]["flag_ins"] or j["obs"]["flag_field"]]),
+           "with_dead_code": len([j for j in judged if j["nlive"] < len(j["lines"])])}
     return witnesses, {j["pid"]: {"text": j["text"], "obs": j["obs"], "fam": j["fam"], "v": j["v"]} for j in judged}, tot
 
 
@@ -127,13 +129,13 @@ def collect(prop, tier, seed):
         w["size"] = len(c["text"])
         w["pipe"] = "seqs"
         mine.append(w)
-    if tot["known_args"] == 0 or tot["flagged"] == 0:
-        raise fw.Machinery("vacuous: no reconstructed operand / no flagged line")
+    if tot["known_args"] == 0 or tot["flagged"] == 0 or tot["with_dead_code"] == 0:
+        raise fw.Machinery("vacuous: no reconstructed operand / no flagged line / no program with dead code")
     cov = {"evaluations": tot["programs"], "distinct_nontrivial": tot["flagged"], "states": tot["states"],
            "transitions": tot["transitions"], "traces_validated_against_impl": tot["programs"],
-           "reconstructed_operands_compared": tot["known_args"],
+           "reconstructed_operands_compared": tot["known_args"], "programs_with_dead_code": tot["with_dead_code"],
            "rule": "SeqCheck.tla: straight-line programs of 3-10 lines over the whole opcode table (SeqGen.tla, "
-                   "families any / shuffle), declared version 1-8 or none; non-trivial = programs with at least one "
+                   "families any / shuffle; one in four ends early with `int 7; return` followed by dead code), declared version 1-8 or none; non-trivial = programs with at least one "
                    "line flagged for its version",
            "samples": [cases[k]["text"] for k in sorted(cases)[:3]]}
 
